@@ -213,6 +213,17 @@ def apply(src_text, overlay, notes=None, trace=None, skip_ops=()):
             else:
                 try:
                     idx = _locate(an, op['after'], op['nth'], op['line'], overlay['src_lines'], notes)
+                    # the anchored line is identified by its text and ordinal; when lines were removed or added the ordinal can point at
+                    # another occurrence (typically of `}`): if the recorded following line does not follow, prefer the nearest occurrence
+                    # where it does
+                    bef = op.get('before')
+                    if bef and not (idx + 1 < len(an) and an[idx + 1] == bef):
+                        pairs = [k for k in range(len(an) - 1) if an[k] == op['after'] and an[k + 1] == bef]
+                        if pairs:
+                            idx2 = min(pairs, key=lambda k: abs(k - idx))
+                            if idx2 != idx:
+                                notes.append('anchor /%s/ re-located by its following line' % op['after'][:30])
+                                idx = idx2
                 except AnchorLost:
                     # the anchored line is gone: hang the ghost text in front of the line that used to follow it
                     if 'before' not in op:
